@@ -34,7 +34,7 @@ class C15(Prop):
             c1 = remk(c0, o)
             c1.meta["twin"] = c0
             return [c0, c1]
-        ring = []; fs = []; pa = []; pf = []; ua = []; uf = []
+        ring = []; fs = []; pa = []; pf = []; ua = []; uf = []; za = []; zf = []
         for _ in range(n):
             c0 = ringgen.gen_case(rng); o = origins(rng, c0.meta["N"], 1)[0]
             ring += twin(c0, o, lambda c, o: ringgen.mk_case(c.meta["N"], o, c.meta["progs"], c.meta["sched"], {"profile": c.meta.get("profile")}))
@@ -49,13 +49,18 @@ class C15(Prop):
             ua += twin(c0, o, lambda c, o: unigen.mk_case("move_atomic", c.meta["N"], c.meta["M"], c.meta["k"], o, c.meta["progs"], c.meta["sched"]))
             c0 = unigen.gen_case(rng, "move_full_sync"); o = origins(rng, c0.meta["N"], 1)[0]
             uf += twin(c0, o, lambda c, o: unigen.mk_case("move_full_sync", c.meta["N"], c.meta["M"], c.meta["k"], o, c.meta["progs"], c.meta["sched"]))
+            for zkind, acc in (("zc_atomic", za), ("zc_full_sync", zf)):
+                if rng.random() < 0.5:
+                    c0 = unigen.gen_case(rng, zkind); o = origins(rng, c0.meta["N"], 1)[0]
+                    acc += twin(c0, o, lambda c, o, zkind=zkind: unigen.mk_case(zkind, c.meta["N"], c.meta["M"], c.meta["k"], o, c.meta["progs"], c.meta["sched"]))
         # a channel that has transported almost 2^32 events carries droppable payloads across the wrap and is torn down with leftovers:
         # the life-cycle model (Alloc/Lifecycle.v, origin-independent) in lock-step + the ownership oracle of C05
         life = []
         for kind in lifegen.KINDS:
             for _ in range(max(6, n // 8)): life.append(lifegen.gen_history(rng, kind, origin=W - rng.randint(0, 5)))
         return [Suite("life_cycle_across_the_wrap", lifegen.HEADER, life), Suite("ring", ringgen.HEADER, ring), Suite("fsring", ringgen.HEADER, fs), Suite("pool_atomic", poolgen.HEADER, pa),
-                Suite("pool_fullsync", poolgen.HEADER, pf), Suite("uni_move_atomic", unigen.HEADER, ua), Suite("uni_move_full_sync", unigen.HEADER, uf)]
+                Suite("pool_fullsync", poolgen.HEADER, pf), Suite("uni_move_atomic", unigen.HEADER, ua), Suite("uni_move_full_sync", unigen.HEADER, uf),
+                Suite("uni_zc_atomic", unigen.XHEADER, za), Suite("uni_zc_full_sync", unigen.XHEADER, zf)]
     def oracle(self, case, recs):
         if case.meta.get("profile") == "life":
             return [(cls, text + " (sequence counters started at %d)" % case.meta["origin"]) for cls, text in lifegen.oracle(case, recs)]
@@ -84,4 +89,4 @@ class C15(Prop):
             elif l.startswith("life "): cases.append(lifegen.parse_case_line(l))
             elif l.startswith("pool "): cases.append(poolgen.parse_case_line(l))
             else: cases.append(ringgen.parse_case_line(l))
-        return Suite("replay", unigen.HEADER + "\n" + ringgen.HEADER + "\n" + poolgen.HEADER + "\n" + lifegen.HEADER, cases)
+        return Suite("replay", unigen.XHEADER + "\n" + ringgen.HEADER + "\n" + poolgen.HEADER + "\n" + lifegen.HEADER, cases)
